@@ -288,6 +288,32 @@ def convergence(chk, t, rng):
                             # "a small multiple" has no number in the property: reported, not an alarm
                             chk.drift_note("component (%d,%d), %s profiles, %s grid, %d layers: error %.3e is more than 6 x the relative layer thickness %.3e"
                                            % (mx, my, fam, gk, n0, errs[0], rel_dz[0]))
+    # LARGE shooting growth (the property allows sum Re(lambda) dz up to 18): a small domain, components with growth 8 ... 17
+    f, z0, ztop = profile_family("log_neutral")
+    ngrow = 0
+    for dom_s, comp in (((9.0, 7.0), (1, 1)), ((6.0, 4.5), (1, 0)), ((5.0, 4.0), (1, -1)), ((4.0, 3.0), (0, 1))):
+        errs, grow = [], 0.0
+        for nn in (96, 384):
+            z = grid_of("stretched", z0, ztop, nn)
+            prof = tuple(np.asarray(a, dtype=float) * np.ones_like(z) for a in f(z))
+            u, v, Kx, Ky, Kz = prof
+            kx, ky = 2 * np.pi * comp[0] / dom_s[0], 2 * np.pi * comp[1] / dom_s[1]
+            T = -(Kx * kx ** 2 + Ky * ky ** 2) - 1j * (u * kx + v * ky)
+            if nn == 96 and (np.abs(T[:-1]) * np.diff(z) ** 2 / Kz[:-1]).max() > 1.0:
+                errs = None
+                break
+            e, grow = field_error(f, z, prof, comp[0], comp[1], nxy, dom_s, [0, nn // 4, nn // 2])
+            errs.append(e)
+        if errs is None or grow > 18.0 or grow < 6.0:
+            continue
+        ngrow += 1
+        n += 1
+        chk.case(json.dumps(["growth", dom_s, comp]))
+        if errs[0] > 1e-9 and errs[1] > errs[0] / 2.5:
+            chk.violation("component (%d,%d) on a %g x %g m domain (shooting growth exp(%.1f)): the error against the exact solution is %.3e with 96 layers and %.3e with 384: it does not shrink 2.5 times"
+                          % (comp[0], comp[1], dom_s[0], dom_s[1], grow, errs[0], errs[1]), {"kind": "convergence", "variant": "large growth", "domain": dom_s, "component": comp, "errors": errs, "growth": grow},
+                          klass={"check": "convergence_ratio", "family": "log_neutral", "variant": "large growth"})
+    chk.extra["large_growth_cases"] = ngrow
     chk.extra["convergence_cases"] = n
     chk.extra["smallest_error_reduction_when_quartered"] = worst_ratio
     chk.extra["largest_error_over_relative_thickness"] = worst_c
